@@ -25,6 +25,48 @@ Proof.
 Qed.
 Print Assumptions C10_token_shape.
 
+(** e-mail tokens read position by position (s62).  For EVERY e-mail value of at least len("a@b.cc")
+    bytes and EVERY random tape the generated token is [email_wellformed] (Proofs/TokensShape.v): it has
+    the length of the value; it contains exactly one '@', which is not its first byte (non-empty local
+    part); its last '.' is at [d = n - length tld] with [a + 1 < d] (NON-EMPTY DOMAIN LABEL between the
+    '@' and the '.'); from [d] on it is literally one of the TLDs of the code; every other byte is from
+    the token alphabet.  The two length thresholds of randomEmail in the model are the values measured
+    on the compiled code (Gen/TokenConsts.v TOK_EMAIL_MIN / TOK_EMAIL_LONG), so this is a proof
+    obligation on the thresholds the code actually has: "a@b" must fit in front of every TLD that can
+    be drawn at a length ([email_long_leaves_room], [email_min_is_shortest_email]). *)
+Theorem C10_email_token_wellformed : forall v tok,
+  generated TEmail v tok -> (6 <= length v)%nat -> email_wellformed (length v) tok.
+Proof.
+  intros v tok [t [t' G]] Hn. cbn [gen_value] in G. exact (random_email_wellformed _ _ _ _ Hn G).
+Qed.
+Print Assumptions C10_email_token_wellformed.
+
+(** the same over the generator itself: all lengths, all tapes *)
+Theorem C10_random_email_wellformed : forall n t tok t',
+  (6 <= n)%nat -> random_email n t = Ok (tok, t') -> email_wellformed n tok.
+Proof. exact random_email_wellformed. Qed.
+Print Assumptions C10_random_email_wellformed.
+
+(** non-vacuity: a 7-byte value with the TLD draw forced to index 4 (what the harness sweep does) yields
+    "bc@f.et" - index 4 of the country list, because ".info" (index 4 of the full list) would leave no
+    room for a domain label at this length *)
+Example ex_email_len7_index4 :
+  exists tok t', random_email 7 [[x00;x00;x00;x04;x00;x00;x00;x00]; [x00;x00;x00;x01;x00;x00;x00;x00];
+                                 [x00;x00;x00;x02;x00;x00;x00;x00]; [x00;x00;x00;x03;x00;x00;x00;x00];
+                                 [x00;x00;x00;x05;x00;x00;x00;x00]] = Ok (tok, t') /\
+                 tok = [x62; x63; x40; x66; x2e; x65; x74] /\ t' = [].
+Proof. eexists. eexists. vm_compute. repeat split; reflexivity. Qed.
+(** ... and the predicate is not trivially true: "x@.info" (empty domain label) is rejected *)
+Example ex_empty_domain_label_is_not_wellformed :
+  ~ email_wellformed 7 [x78; x40; x2e; x69; x6e; x66; x6f].
+Proof.
+  intros [a [tld [rest [Hin [_ [_ W]]]]]]. cbv zeta in W.
+  destruct W as [_ [Hd [_ [Hat [_ [Hdot _]]]]]].
+  assert (a = 1%nat) as -> by (symmetry; apply Hat; reflexivity).
+  vm_compute in Hin.
+  repeat (destruct Hin as [<-|Hin]; [cbn in Hd, Hdot; try lia; try discriminate|]). contradiction.
+Qed.
+
 (** every token returned by a call in any interleaving from the empty store was generated for that
     call's value and type (also when it was read back from the consistent record) - or a collision *)
 Theorem C10_token_shape_returned : forall enc calls sched t0 c tok,
